@@ -71,7 +71,7 @@ Qed.
 
 Lemma NE_ext k N B y y' c c' :
   (forall p, 0 <= p < N -> y p = y' p) -> (forall i, 0 <= i < k -> c i = c' i) -> NE k N B y c -> NE k N B y' c'.
-Proof. intros Hy Hc H j Hj. rewrite <- (H j Hj). apply sumZ_ext. intros p Hp.
+Proof. intros Hy Hc H j Hj. etransitivity; [|exact (H j Hj)]. apply sumZ_ext. intros p Hp.
   rewrite (Hy p Hp), (lin_ext k B c c' p Hc). reflexivity. Qed.
 
 (* the normal equations are linear in (y, c) *)
@@ -88,7 +88,7 @@ Proof. intros H j Hj. apply sumZ_zero_ext; [assumption|]. intros p Hp. rewrite (
 (* the residual of a least-squares fit is fitted by zero *)
 Lemma NE_of_residual k N B y c :
   NE k N B y c -> NE k N B (fun p => (y p - lin k B c p)%K) (fun _ => k0).
-Proof. intros H j Hj. rewrite <- (H j Hj). apply sumZ_ext. intros p _. rewrite lin_zero. ring. Qed.
+Proof. intros H j Hj. etransitivity; [|exact (H j Hj)]. apply sumZ_ext. intros p _. rewrite lin_zero. ring. Qed.
 
 (* (a) uniqueness: an independent family has at most one solution of the normal equations *)
 Theorem lsq_unique k N B y c c' :
@@ -122,12 +122,19 @@ Proof. unfold tabZ. rewrite map_length, seq_length. reflexivity. Qed.
 Lemma nthZ_tabZ n (f : Z -> S) i : 0 <= i < n -> nthZ (tabZ n f) i = f i.
 Proof. apply nth_tabZ. Qed.
 
-Definition dotl (a b : list S) : S :=
-  fold_left (fun acc ab => (acc + fst ab * snd ab)%K) (combine a b) k0.
+Fixpoint dotacc (acc : S) (a b : list S) : S :=
+  match a, b with x :: r, y :: t => dotacc (acc + x * y)%K r t | _, _ => acc end.
+Definition dotl (a b : list S) : S := dotacc k0 a b.
+Lemma dotacc_seq (f g : nat -> S) m : forall s acc,
+  dotacc acc (map f (seq s m)) (map g (seq s m)) = (acc + sumn m (fun i => (f (s + i)%nat * g (s + i)%nat)%K))%K.
+Proof. induction m as [|m IH]; intros s acc; [cbn; ring|].
+  cbn [seq map dotacc]. rewrite IH, sumn_head by assumption. rewrite Nat.add_0_r.
+  rewrite (sumn_ext S m (fun i => (f (s + Datatypes.S i)%nat * g (s + Datatypes.S i)%nat)%K)
+                        (fun i => (f (Datatypes.S s + i)%nat * g (Datatypes.S s + i)%nat)%K)).
+  - ring.
+  - intros i _. rewrite Nat.add_succ_r. reflexivity. Qed.
 Lemma dotl_tabZ n (f g : Z -> S) : dotl (tabZ n f) (tabZ n g) = sumZ n (fun p => (f p * g p)%K).
-Proof. unfold dotl, tabZ, sumZ. induction (Z.to_nat n) as [|m IH]; [reflexivity|].
-  rewrite seq_S, !map_app, combine_app by (rewrite !map_length; reflexivity).
-  rewrite fold_left_app, IH. cbn. reflexivity. Qed.
+Proof. unfold dotl, tabZ, sumZ. rewrite dotacc_seq. cbn [Nat.add]. ring. Qed.
 End Lsq.
 Arguments lin {S}. Arguments NE {S}. Arguments indep {S}. Arguments gram {S}. Arguments rhs {S}.
 Arguments dotl {S}.
@@ -217,7 +224,7 @@ Proof.
   apply E2, keqb_sound in Hin. clear E2.
   assert (Hlen : length (tabZ k (fun i => tabZ N (B i))) = Z.to_nat k) by apply length_tabZ.
   assert (Hrow : forall i, 0 <= i < k -> nth (Z.to_nat i) (tabZ k (fun i => tabZ N (B i))) [] = tabZ N (B i))
-    by (intros; apply nth_tabZ; assumption).
+    by (intros i Hi; apply (nth_tabZ k (fun i => tabZ N (B i)) [] i Hi)).
   unfold nthZ at 3 in Hin.
   rewrite (nth_indep _ k0 (dotl [] (tabZ N y))) in Hin by (rewrite map_length; lia).
   rewrite (map_nth (fun bj => dotl bj (tabZ N y))), Hrow, (dotl_tabZ S Sring) in Hin by assumption.
